@@ -91,19 +91,4 @@ Section Tie.
     fold_left f (flat_map g l) a = fold_left (fun a b => fold_left f (g b) a) l a.
   Proof. revert a. induction l as [|x l IH]; intro a; cbn; [reflexivity|]. rewrite fold_left_app. apply IH. Qed.
 
-  Lemma tie_min_pow_le_limbs x limbs : G.min_pow_le_limbs x limbs = pow_le_limbs x limbs.
-  Proof.
-    unfold G.min_pow_le_limbs, pow_le_limbs, pow_le_bits, limbs_bits. cbv zeta.
-    rewrite fold_left_flat_map.
-    match goal with |- (let '(acc, _) := ?a in acc) = fst ?b => replace a with b; [destruct b; reflexivity|] end.
-    apply fold_left_ext. intros [acc ins] limb.
-    unfold limb_bits. change 64%Z with (Z.of_nat 64). rewrite zrange_seq, !fold_left_map.
-    apply fold_left_ext. intros [acc' ins'] i.
-    rewrite Z.land_ones by lia. change (2 ^ 1)%Z with 2%Z.
-    rewrite Z.shiftr_spec_aux || idtac.
-    rewrite (Z.testbit_spec' limb (Z.of_nat i)) || idtac.
-    rewrite Z.shiftr_div_pow2 by lia.
-    rewrite Z.testbit_eqb by lia.
-    destruct (Z.eqb_spec ((limb / 2 ^ Z.of_nat i) mod 2) 1) as [E|E]; reflexivity.
-  Qed.
 End Tie.
